@@ -457,3 +457,74 @@ Proof.
   exists ps2, {| sl_start := Some 0%Z; sl_stop := Some 2%Z; sl_step := None |}, b. repeat split; assumption.
 Qed.
 End DRefuted.
+
+(* ------------------------------------------------------------ byaxis_in *)
+Section DP3.
+Context {T : Type} `{Num T}.
+Variable dv : dvariants.
+
+Lemma select_pos_spec {A} (l : list A) ps l' : select_pos l ps = Ok l' ->
+  Forall2 (fun p x => nth_error l (Z.to_nat p) = Some x) ps l'.
+Proof.
+  unfold select_pos. intro E. apply rall_Ok in E. induction E as [|p x ps l' Epx E IH]; constructor; auto.
+  destruct (nth_error l (Z.to_nat p)); inversion Epx; reflexivity.
+Qed.
+
+(* space.byaxis_in[idx] is a discretized space over exactly the selected axes of the partition
+   (interval ends and grid vectors, in the order of the positions), whose tensor space has the
+   shape of that sub-partition *)
+Theorem byaxis_in_spec (p : part T) (t : tsp T) i b : obyaxis_in dv (ODiscr p t) i = Ok b ->
+  exists ps p' t', b = ODiscr p' t' /\
+    axis_positions (Z.of_nat (length (p_grid p))) i = Ok ps /\
+    Forall2 (fun q x => nth_error (p_intv p) (Z.to_nat q) = Some x) ps (p_intv p') /\
+    Forall2 (fun q x => nth_error (p_grid p) (Z.to_nat q) = Some x) ps (p_grid p') /\
+    ts_shape t' = map (fun g => Z.of_nat (length g)) (p_grid p').
+Proof.
+  cbn [obyaxis_in]. destruct (match i with ASlice _ => _ | _ => false end); [discriminate|].
+  intro E. apply rbind_Ok in E as [ps [Eps E]]. apply rbind_Ok in E as [intv' [Ei E]].
+  apply rbind_Ok in E as [grid' [Eg E]]. apply rbind_Ok in E as [t' [Et E]].
+  destruct (Zs_eqb _ (ts_shape t')) eqn:Es; [|discriminate]. inversion E; subst b.
+  exists ps, {| p_intv := intv'; p_grid := grid' |}, t'. cbn. repeat split; auto.
+  - apply select_pos_spec, Ei.
+  - apply select_pos_spec, Eg.
+  - unfold Zs_eqb in Es. symmetry. revert Es. generalize (map (fun g : list T => Z.of_nat (length g)) grid') (ts_shape t').
+    induction l as [|x l IH]; intros [|y m]; cbn; try discriminate; auto.
+    intro E'. apply andb_true_iff in E' as [E1 E2]. apply Z.eqb_eq in E1. subst. f_equal. auto.
+Qed.
+End DP3.
+
+(* ------------------------------------------------------------ element indexing *)
+From Verif Require Import C20.Indexing.
+Section DP4.
+Context {T : Type} `{Num T}.
+
+Fixpoint n_ints (idx : list idx1) : nat :=
+  match idx with [] => O | XInt _ :: r => S (n_ints r) | _ :: r => n_ints r end.
+
+(* a[idx] has one axis less per integer index, for all shapes and index tuples *)
+Theorem index_shape_ndim : forall (idx : list idx1) (shape sh : list Z),
+  index_shape shape idx = Ok sh -> (length sh + n_ints idx = length shape)%nat.
+Proof.
+  induction idx as [|i idx IH]; intros shape sh E; cbn in E.
+  - inversion E; subst. cbn. lia.
+  - destruct shape as [|n sh']; [discriminate|]. destruct i as [k|s|]; [| |discriminate].
+    + apply rbind_Ok in E as [j [_ E]]. apply IH in E. cbn [n_ints length]. lia.
+    + apply rbind_Ok in E as [ps [_ E]]. apply rmap_Ok in E as [sh2 [E ->]]. apply IH in E.
+      cbn [n_ints length]. lia.
+Qed.
+
+(* x[idx] (not a scalar) lives in a space with the shape of the selection, the dtype of x and,
+   unless it is an array weighting, the very weighting of x.space *)
+Theorem tens_getitem_space (t : tsp T) data idx t' d :
+  tens_getitem t data idx = Ok (GTens t' d) ->
+  index_shape (ts_shape t) idx = Ok (ts_shape t') /\ ts_dtype t' = ts_dtype t /\
+  d = index_data (ts_shape t) idx data /\
+  (is_numeric (ts_dtype t) = true -> (forall k i e, ts_w t <> WArray k i e) -> ts_w t' = ts_w t).
+Proof.
+  unfold tens_getitem. intro E. apply rbind_Ok in E as [sh [Es E]].
+  destruct (all_ints _ _); [destruct (index_data _ _ _); discriminate|].
+  apply rmap_Ok in E as [t2 [E E2]]. inversion E2; subst t' d.
+  apply mk_tsp_Ok in E as [E1 [E3 [_ E4]]]. rewrite E1. repeat split; auto.
+  intros Hn Hw. rewrite Hn in E4. rewrite E4. destruct (ts_w t); try reflexivity. exfalso. eapply Hw. reflexivity.
+Qed.
+End DP4.
